@@ -131,6 +131,9 @@ def _l2_traces(ctx, prop, histories=None):
         n = L2_PROPS[prop] * (1 if ctx.quick else 12)
         histories = [mcm.gen_random(mcm.SCENARIOS['base'], rng, rng.choice([8, 12, 16]))
                      for _ in range(n)]
+        if prop == 'C05':
+            histories += [mcm.gen_identity(mcm.SCENARIOS['base'], rng, rng.choice([4, 6, 9]))
+                          for _ in range(n // 2)]
     out = []
     for t in mcm.record('base', histories):
         for seg in master_l2.sched_segments('l2-' + t['tid'], t['lines']):
